@@ -1270,12 +1270,14 @@ struct server *findserver(struct realm **realm, struct tlv *username, uint8_t ac
             *realm = subrealm;
             debug(DBG_DBG, "added realm: %s", (*realm)->name);
             srvconf = choosesrvconf(acc ? (*realm)->accsrvconfs : (*realm)->srvconfs);
-            debug(DBG_DBG, "found conf for new realm: %s", srvconf->name);
+            if (srvconf)
+                debug(DBG_DBG, "found conf for new realm: %s", srvconf->name);
         }
     } else if (srvconf && !srvconf->servers && srvconf->dynamiclookupcommand) {
         if (addserver(srvconf, (*realm)->name)) {
             srvconf = choosesrvconf(acc ? (*realm)->accsrvconfs : (*realm)->srvconfs);
-            debug(DBG_DBG, "found conf for realm: %s", srvconf->name);
+            if (srvconf)
+                debug(DBG_DBG, "found conf for realm: %s", srvconf->name);
         }
     }
     if (srvconf) {
